@@ -41,6 +41,10 @@ type ReqSpec struct {
 	Path     string `json:"path,omitempty"`  // request-target path+query instead of the default ("EMPTY": none at all, absolute-form only; "*": asterisk-form)
 	HostPort string `json:"hp,omitempty"`    // authority of an absolute-form target instead of the bare host (may carry a port or userinfo)
 	CloseTok string `json:"cltok,omitempty"` // other spellings of the client's wish to close: "Close", "keep-alive, close"
+	// round 8: the request head (request line to blank line) is padded with X-Blk fields to exactly HdrBlock bytes;
+	// HdrShape: f4k (4 KiB lines, one repeated name) | f64k (64 KiB lines, distinct names) | one (a single field)
+	HdrBlock int    `json:"hb,omitempty"`
+	HdrShape string `json:"hbs,omitempty"`
 }
 
 type RespSpec struct {
@@ -57,6 +61,10 @@ type RespSpec struct {
 	Interim2 bool   `json:"i2,omitempty"`    // two interim responses (100 Continue, 103) first
 	Location string `json:"loc,omitempty"`   // Location header (3xx): must be relayed, never followed
 	Early    bool   `json:"early,omitempty"` // the origin answers as soon as it has the request head, never reads the body, holds the connection
+	// round 8: response head (status line to blank line) padded with X-Blk fields to exactly HdrBlock bytes
+	HdrBlock int    `json:"hb,omitempty"`
+	HdrShape string `json:"hbs,omitempty"`
+	DelayMs  int    `json:"delay_ms,omitempty"` // the origin stays silent this long before the first byte of its response
 }
 
 type Exchange struct {
@@ -69,7 +77,8 @@ type Scenario struct {
 	Family     string       `json:"fam"`
 	Conns      [][]Exchange `json:"conns"`                // one exchange list per client connection (normally one connection)
 	Pipelined  bool         `json:"pipe,omitempty"`       // all requests written before the first response is read
-	Mode       string       `json:"mode,omitempty"`       // "" | concurrent | stalled_reader | interleaved | partial_next | idle_timeout
+	Mode       string       `json:"mode,omitempty"`       // "" | concurrent | stalled_reader | interleaved | partial_next | idle_timeout | upstream_conn_age
+	Gaps       []int        `json:"gaps_ms,omitempty"`    // upstream_conn_age: pause before the i-th exchange (exchanges counted across the connections, in order)
 	Sched      []int        `json:"sched,omitempty"`      // interleaved: connection index of each step (even step of a connection = send its next request, odd = read and check its response)
 	Cut        string       `json:"cut,omitempty"`        // partial_next: where the prefix of request 2 that travels with request 1 ends
 	TimeoutMs  int          `json:"timeout_ms,omitempty"` // idle_timeout: proxy.SetTimeout
@@ -104,6 +113,37 @@ func manyHeaders(n int) []h1harness.HeaderField {
 	var out []h1harness.HeaderField
 	for i := 0; i < n; i++ {
 		out = append(out, h1harness.HeaderField{Name: fmt.Sprintf("X-H-%03d", i), Value: fmt.Sprintf("v%d", i)})
+	}
+	return out
+}
+
+// fillHeaders returns header fields X-Blk... whose lines ("Name: value\r\n") add up to exactly need bytes.
+// Every value starts with its index, so a lost, repeated or truncated field changes the multiset of values.
+func fillHeaders(shape string, need int) []h1harness.HeaderField {
+	line := need
+	switch shape {
+	case "f4k":
+		line = 4096
+	case "f64k":
+		line = 65536
+	}
+	var out []h1harness.HeaderField
+	for i := 0; need > 0; i++ {
+		n := line
+		if need-n < 64 { // the last line takes the remainder
+			n = need
+		}
+		name := "X-Blk"
+		if shape == "f64k" {
+			name = fmt.Sprintf("X-Blk-%04d", i)
+		}
+		v := make([]byte, n-len(name)-4) // ": " and CRLF
+		k := copy(v, fmt.Sprintf("%06d-", i))
+		for j := k; j < len(v); j++ {
+			v[j] = 'a' + byte((j+i*7)%26)
+		}
+		out = append(out, h1harness.HeaderField{Name: name, Value: string(v)})
+		need -= n
 	}
 	return out
 }
@@ -306,6 +346,15 @@ func buildReq(scID, conn, ex int, r ReqSpec) *builtReq {
 		}
 		body = append(body, "\r\n"...)
 	}
+	if r.HdrBlock > 0 {
+		cur := 2
+		for _, l := range lines {
+			cur += len(l) + 2
+		}
+		for _, f := range fillHeaders(r.HdrShape, r.HdrBlock-cur) {
+			add(f.Name, f.Value, true)
+		}
+	}
 	head := []byte(strings.Join(lines, "\r\n") + "\r\n\r\n")
 	switch r.Seg {
 	case "split":
@@ -419,6 +468,11 @@ func buildResp(scID, conn, ex int, method string, r RespSpec) *builtResp {
 	if r.Proto10 == "1.0" {
 		out.close = true
 	}
+	if r.HdrBlock > 0 {
+		for _, f := range fillHeaders(r.HdrShape, r.HdrBlock-sb.Len()-2) {
+			add(f.Name, f.Value, true)
+		}
+	}
 	sb.WriteString("\r\n")
 	headLen := sb.Len()
 	if !nobody && r.Framing != "none" && r.Framing != "clhead" && r.Framing != "chunkedhead" {
@@ -442,8 +496,11 @@ func buildResp(scID, conn, ex int, method string, r RespSpec) *builtResp {
 	// how the origin cuts the response into write calls
 	if r.Burst1 > 0 && headLen+r.Burst1 < len(out.wire) {
 		out.segs = [][]byte{out.wire[:headLen+r.Burst1], out.wire[headLen+r.Burst1:]}
-		out.pauses = []time.Duration{0, time.Duration(r.PauseMs) * time.Millisecond}
+		out.pauses = []time.Duration{time.Duration(r.DelayMs) * time.Millisecond, time.Duration(r.PauseMs) * time.Millisecond}
 		return out
+	}
+	if r.DelayMs > 0 {
+		defer func() { out.pauses = []time.Duration{time.Duration(r.DelayMs) * time.Millisecond} }()
 	}
 	switch r.Split {
 	case "headbody":
@@ -625,6 +682,13 @@ func (g *gen) add(s Scenario) {
 	switch {
 	case s.Family == "G_gzip_seq":
 		s.AlsoTCP = true
+	case s.Family == "HB_header_block":
+		// the TCP re-run recognises a stall by a quiet period (wall clock): keep it to heads of at most 3 MiB
+		big := 0
+		for _, e := range s.Conns[0] {
+			big = max(big, e.Req.HdrBlock, e.Resp.HdrBlock)
+		}
+		s.AlsoTCP = big <= 3<<20 && ((g.thorough && i%53 == 0) || (!g.thorough && i%11 == 0))
 	case s.Mode != "" || s.Family == "E_large" || s.Family == "H_early_response" || s.Family == "T_idle_timeout" || s.Family == "N_expect_without_100" || s.Family == "R_paused_bursts":
 	case g.thorough && strings.HasPrefix(s.Family, "D"):
 		s.AlsoTCP = i%307 == 0
@@ -865,7 +929,152 @@ func scenarios(tier string, keep func(id int) bool) (map[int]*Scenario, int, map
 	if thorough {
 		deepFamilies(g, alpha)
 	}
+	round8Families(g, alpha, thorough)
 	return g.kept, g.n, g.fam
+}
+
+// connection-age family: proxy timeout, nominal gap between exchanges, nominal duration of a slow exchange (ms)
+const (
+	ageTimeoutMs = 3000
+	ageGapMs     = 700
+	ageSlowMs    = 1200
+)
+
+// round8Families (appended last, so the ids of all earlier scenarios are unchanged):
+//
+// HB_header_block: request and response heads whose size sits at net/http's header-size constants
+// (http.DefaultMaxHeaderBytes = 1 MiB, just below / at / just above; several MiB, below the Transport's default
+// response-header cap of 10 MiB) x the shape of the header set (4 KiB lines of one repeated name, 64 KiB lines of
+// distinct names, a single field) x request / response shapes x position on the connection (alone, first,
+// second, pipelined). Every field value must arrive; the bodies after the big head must be intact; the
+// connection must stay usable.
+//
+// L_upstream_conn_age: SetTimeout(T = 3 s) with the dial function installed through SetDial; every sequence of
+// 2..3 (thorough: 2..4) exchanges whose individual durations (0 or 1.2 s of origin silence, before the response
+// head or in the middle of its body) and idle gaps (0 or 0.7 s) all stay below T/2 but add up to more than T,
+// on one client connection or split over two consecutive client connections (same pooled upstream connection),
+// with replayable (GET) and non-replayable (POST, PUT) requests. Real time: a run in which a measured gap or
+// exchange duration reached T/2 is counted as inconclusive and not judged.
+func round8Families(g *gen, alpha []Exchange, thorough bool) {
+	sizes := []int{1<<20 - 4096, 1<<20 + 4096, 3 << 20}
+	if thorough {
+		sizes = []int{1<<20 - 4096, 1<<20 - 1, 1 << 20, 1<<20 + 1, 1<<20 + 4096, 2 << 20, 3 << 20, 6 << 20, 9 << 20}
+	}
+	type rp struct {
+		r ReqSpec
+		p RespSpec
+	}
+	get := ReqSpec{Method: "GET", Abs: true, Proto: "1.1", Framing: "none", Seg: "one"}
+	post := ReqSpec{Method: "POST", Abs: true, Proto: "1.1", Framing: "cl", Size: 4097, Seg: "split"}
+	head := ReqSpec{Method: "HEAD", Abs: true, Proto: "1.1", Framing: "none", Seg: "one"}
+	put := ReqSpec{Method: "PUT", Abs: false, Proto: "1.1", Framing: "ch2", Size: 4097, Seg: "split"}
+	respSide := []rp{
+		{get, RespSpec{Status: 200, Framing: "cl", Size: 4097}},
+		{get, RespSpec{Status: 200, Framing: "chunked", Size: 4097}},
+		{get, RespSpec{Status: 200, Framing: "close", Size: 4097}},
+		{post, RespSpec{Status: 200, Framing: "cl", Size: 4097}},
+		{head, RespSpec{Status: 200, Framing: "cl", Size: 4097}},
+	}
+	reqSide := []rp{{get, defaultResp}, {post, defaultResp}, {put, defaultResp}, {head, defaultResp}}
+	if thorough {
+		respSide = append(respSide,
+			rp{post, RespSpec{Status: 200, Framing: "chunked2", Size: 4097}},
+			rp{post, RespSpec{Status: 404, Framing: "close", Size: 4097}},
+			rp{get, RespSpec{Status: 404, Framing: "cl", Size: 0}},
+			rp{get, RespSpec{Status: 204, Framing: "none"}},
+			rp{get, RespSpec{Status: 200, Framing: "cl", Size: 4097, Close: true}})
+		getO, postO := get, post
+		getO.Abs, postO.Abs = false, false
+		post10 := post
+		post10.Proto = "1.0ka"
+		reqSide = append(reqSide, rp{getO, defaultResp}, rp{postO, defaultResp}, rp{post10, defaultResp},
+			rp{ReqSpec{Method: "PUT", Abs: true, Proto: "1.1", Framing: "chT", Size: 4097, Seg: "one"}, defaultResp})
+	}
+	positions := func(e Exchange) {
+		g.add(Scenario{Family: "HB_header_block", Conns: [][]Exchange{{e}}})
+		g.add(Scenario{Family: "HB_header_block", Conns: [][]Exchange{{e, alpha[1]}}})
+		g.add(Scenario{Family: "HB_header_block", Conns: [][]Exchange{{alpha[5], e}}})
+		g.add(Scenario{Family: "HB_header_block", Conns: [][]Exchange{{e, alpha[5]}}, Pipelined: true})
+		if thorough {
+			g.add(Scenario{Family: "HB_header_block", Conns: [][]Exchange{{alpha[5], e}}, Pipelined: true})
+			g.add(Scenario{Family: "HB_header_block", Conns: [][]Exchange{{e, e}}})
+		}
+	}
+	for _, n := range sizes {
+		for _, shape := range []string{"f4k", "f64k", "one"} {
+			for _, v := range respSide {
+				v.p.HdrBlock, v.p.HdrShape = n, shape
+				positions(Exchange{v.r, v.p})
+			}
+			for _, v := range reqSide {
+				v.r.HdrBlock, v.r.HdrShape = n, shape
+				positions(Exchange{v.r, v.p})
+			}
+		}
+	}
+	if thorough { // both directions big in one exchange
+		for _, n := range []int{1<<20 + 4096, 3 << 20} {
+			for _, shape := range []string{"f4k", "one"} {
+				r, p := post, RespSpec{Status: 200, Framing: "chunked", Size: 4097, HdrBlock: n, HdrShape: shape}
+				r.HdrBlock, r.HdrShape = n, shape
+				positions(Exchange{r, p})
+			}
+		}
+	}
+
+	// L: age of the reused upstream connection
+	maxLen := 3
+	reqKinds := []ReqSpec{post, get}
+	if thorough {
+		maxLen = 4
+		reqKinds = append(reqKinds, ReqSpec{Method: "PUT", Abs: true, Proto: "1.1", Framing: "chT", Size: 4097, Seg: "one"})
+	}
+	for n := 2; n <= maxLen; n++ {
+		for bits := 0; bits < 1<<(2*n-1); bits++ { // bit 2i: exchange i is slow; bit 2i-1: a gap precedes exchange i
+			total, gaps, slow := 0, make([]int, n), make([]bool, n)
+			for i := 0; i < n; i++ {
+				if bits>>(2*i)&1 == 1 {
+					slow[i] = true
+					total += ageSlowMs
+				}
+				if i > 0 && bits>>(2*i-1)&1 == 1 {
+					gaps[i] = ageGapMs
+					total += ageGapMs
+				}
+			}
+			if total <= ageTimeoutMs {
+				continue // a connection that never gets as old as the timeout: the ordinary sequence families
+			}
+			for ri, r := range reqKinds {
+				for _, kind := range []string{"head", "body"} {
+					if !thorough && ri > 0 && kind == "body" {
+						continue
+					}
+					exs := make([]Exchange, n)
+					for i := range exs {
+						p := RespSpec{Status: 200, Framing: "cl", Size: 5000}
+						if kind == "body" && i%2 == 1 {
+							p.Framing = "chunked"
+						}
+						if slow[i] && kind == "head" {
+							p.DelayMs = ageSlowMs
+						} else if slow[i] {
+							p.PauseMs, p.Burst1 = ageSlowMs, 1000
+						}
+						exs[i] = Exchange{r, p}
+					}
+					g.add(Scenario{Family: "L_upstream_conn_age", Conns: [][]Exchange{exs}, Mode: "upstream_conn_age", TimeoutMs: ageTimeoutMs, Gaps: gaps})
+					// the same timeline with the client reconnecting after exchange k (the upstream connection is pooled)
+					for k := 1; k < n; k++ {
+						if ri > 0 || kind == "body" || (!thorough && k > 1) {
+							continue
+						}
+						g.add(Scenario{Family: "L_upstream_conn_age", Conns: [][]Exchange{exs[:k], exs[k:]}, Mode: "upstream_conn_age", TimeoutMs: ageTimeoutMs, Gaps: gaps})
+					}
+				}
+			}
+		}
+	}
 }
 
 // request-target shapes (path+query as the client writes it; the origin must see exactly this, "/" for none)
@@ -1266,6 +1475,7 @@ type runOut struct {
 	http10Chunked                            int
 	cl304Dropped                             int
 	inconclusive                             int
+	inconclusiveAge                          int
 	respTrailersRelayed, respTrailersDropped int
 	bodyBytes                                int64
 }
@@ -1275,6 +1485,10 @@ func classOf(s *Scenario, e Exchange) string {
 	switch {
 	case s.Mode != "":
 		return s.Mode
+	case e.Resp.HdrBlock > 0:
+		return "resp_header_block_" + hbBucket(e.Resp.HdrBlock)
+	case e.Req.HdrBlock > 0:
+		return "req_header_block_" + hbBucket(e.Req.HdrBlock)
 	case nobody && strings.HasPrefix(e.Resp.Framing, "chunked"):
 		return "bodiless_resp_te_chunked"
 	case e.Resp.HSet == 2 && !e.Req.hasAcceptEncoding() && !nobody:
@@ -1296,6 +1510,10 @@ func reqClassOf(s *Scenario, e Exchange) string {
 	switch {
 	case s.Mode != "":
 		return s.Mode
+	case e.Req.HdrBlock > 0:
+		return "req_header_block_" + hbBucket(e.Req.HdrBlock)
+	case e.Resp.HdrBlock > 0:
+		return "resp_header_block_" + hbBucket(e.Resp.HdrBlock)
 	case s.Pipelined:
 		return "pipelined"
 	case e.Req.Method == "HEAD":
@@ -1304,6 +1522,23 @@ func reqClassOf(s *Scenario, e Exchange) string {
 		return "http10"
 	}
 	return "plain"
+}
+
+// sigName maps the numbered padding fields of a header block (x-blk-0000, x-blk-0001, ...) to one name, so
+// that one defect yields one signature whatever the size of the block.
+func sigName(name string) string {
+	if strings.HasPrefix(name, "x-blk-") {
+		return "x-blk"
+	}
+	return name
+}
+
+// hbBucket names the size class of a padded header block relative to net/http's 1 MiB constant.
+func hbBucket(n int) string {
+	if n <= 1<<20 {
+		return "up_to_1MiB"
+	}
+	return "above_1MiB"
 }
 
 // closeCause names who asked for the connection to be closed (class of the conn_not_closed symptom).
@@ -1749,6 +1984,79 @@ func runScripted(env *h1harness.Env, s *Scenario, script *originScript, out *run
 	}
 }
 
+// runConnAge drives the upstream_conn_age mode: the exchanges of all connections form one timeline (s.Gaps[i]
+// of idle time before the i-th exchange); a client connection is closed by the client when its exchanges are
+// done and the next one is opened on the same proxy. Every gap and every exchange is measured: once one of them
+// reaches half the proxy timeout the run says nothing about the property and is counted as inconclusive.
+func runConnAge(env *h1harness.Env, s *Scenario, script *originScript, out *runOut, mu *sync.Mutex) {
+	limit := time.Duration(s.TimeoutMs) * time.Millisecond / 2
+	report := func(k int, sym, detail string) {
+		out.findings = append(out.findings, finding{k, s.Mode, sym, detail})
+	}
+	begin := time.Now()
+	var done time.Time
+	step := 0
+	for ci, exs := range s.Conns {
+		cl, err := env.NewClient()
+		if err != nil {
+			out.findings = append(out.findings, finding{0, "harness", "client_dial_failed", err.Error()})
+			return
+		}
+		addOutcome := func(o string) { out.outcome = append(out.outcome, fmt.Sprintf("c%d:%s", ci, o)) }
+		for k, e := range exs {
+			if step < len(s.Gaps) && s.Gaps[step] > 0 {
+				time.Sleep(time.Duration(s.Gaps[step]) * time.Millisecond)
+			}
+			step++
+			if !done.IsZero() && time.Since(done) >= limit {
+				out.inconclusiveAge++
+				return
+			}
+			start := time.Now()
+			serr := cl.Send(buildReq(s.ID, ci, k, e.Req).segs...)
+			res := cl.ReadResponse(e.Req.Method)
+			if time.Since(start) >= limit {
+				out.inconclusiveAge++
+				return
+			}
+			age := fmt.Sprintf(" [exchange %d of the timeline, started %v after the first, proxy timeout %d ms, every gap and exchange shorter than %v]", step-1, start.Sub(begin).Round(10*time.Millisecond), s.TimeoutMs, limit)
+			if serr != nil {
+				report(k, "conn_closed_early", "writing request failed: "+serr.Error()+age)
+				return
+			}
+			out.exchanges++
+			if res.HeadErr == "" {
+				out.reached[tag(ci, k)] = true
+			}
+			if !checkResponse(s, e, tag(ci, k), k, res, script.resps[tag(ci, k)], func(k int, sym, d string) { report(k, sym, d+age) }, addOutcome, out, mu) {
+				return
+			}
+			if left := cl.Leftover(); len(left) > 0 {
+				report(k, "resp_trailing_garbage", fmt.Sprintf("%d bytes follow the complete response although no further request was sent: %q", len(left), trunc(left, 80)))
+				return
+			}
+			done = time.Now()
+		}
+		if ci < len(s.Conns)-1 {
+			cl.Conn.Close()
+			continue
+		}
+		probe := []byte("GET http://" + originHost + "/probe-" + tag(ci, 0) + " HTTP/1.1\r\nHost: " + originHost + "\r\nConnection: close\r\n\r\n")
+		if err := cl.Send(probe); err != nil {
+			report(len(exs)-1, "conn_closed_early", "connection not usable for the next request: "+err.Error())
+			return
+		}
+		pres := cl.ReadResponse("GET")
+		if time.Since(done) >= limit {
+			out.inconclusiveAge++
+			return
+		}
+		if pres.HeadErr != "" || pres.Status != 200 || string(pres.Body) != "probe-ok" {
+			report(len(exs)-1, "next_request_not_served", fmt.Sprintf("follow-up request: head=%q status=%d", pres.HeadErr, pres.Status))
+		}
+	}
+}
+
 func trunc(b []byte, n int) []byte {
 	if len(b) > n {
 		return b[:n]
@@ -1812,7 +2120,7 @@ func checkResponse(s *Scenario, e Exchange, wantTag string, k int, res *h1harnes
 		}
 	}
 	for _, name := range multisetMissing(want.headers, func(n string) []string { return res.Header[http.CanonicalHeaderKey(n)] }, connVals) {
-		report(k, "resp_header_lost:"+name, fmt.Sprintf("origin sent %v, client received %q", valuesOf(want.headers, name), res.Header[http.CanonicalHeaderKey(name)]))
+		report(k, "resp_header_lost:"+sigName(name), fmt.Sprintf("origin sent %v, client received %q", valuesOf(want.headers, name), res.Header[http.CanonicalHeaderKey(name)]))
 		ok = false
 	}
 	if want.trailer != "" {
@@ -1953,7 +2261,7 @@ func checkOrigin(s *Scenario, log []*h1harness.RawRequest, parseErrs []string, o
 				}
 			}
 			for _, name := range multisetMissing(w.headers, r.Get, reqConnVals) {
-				add("req_header_lost:"+name, fmt.Sprintf("client sent %v, origin received %q", valuesOf(w.headers, name), r.Get(name)))
+				add("req_header_lost:"+sigName(name), fmt.Sprintf("client sent %v, origin received %q", valuesOf(w.headers, name), r.Get(name)))
 			}
 			if e.Resp.Early {
 				continue // the origin deliberately did not read the body
@@ -2031,6 +2339,8 @@ func runScenario(s *Scenario, kind string, quiet time.Duration) *runOut {
 		runInterleaved(env, s, script, out, &mu)
 	case "partial_next", "idle_timeout", "half_close":
 		runScripted(env, s, script, out, &mu)
+	case "upstream_conn_age":
+		runConnAge(env, s, script, out, &mu)
 	case "sequential_conns":
 		// one client connection after the other on the same proxy (shared transport, pooled upstream
 		// connections): every connection but the last is closed by the client after its exchanges
@@ -2085,6 +2395,17 @@ func runCase(s *Scenario) *h1harness.CaseResult {
 	res.C["chunked_to_http10_client"] += int64(o.http10Chunked)
 	res.C["content_length_dropped_on_304"] += int64(o.cl304Dropped)
 	res.C["idle_timeout_runs_inconclusive"] += int64(o.inconclusive)
+	res.C["conn_age_runs_inconclusive"] += int64(o.inconclusiveAge)
+	if s.Mode == "upstream_conn_age" && o.inconclusiveAge == 0 {
+		res.C["conn_age_runs_judged"]++
+	}
+	for _, exs := range s.Conns {
+		for _, e := range exs {
+			if e.Req.HdrBlock > 0 || e.Resp.HdrBlock > 0 {
+				res.C["header_block_bytes_relayed"] += int64(e.Req.HdrBlock + e.Resp.HdrBlock)
+			}
+		}
+	}
 	res.C["resp_trailers_relayed"] += int64(o.respTrailersRelayed)
 	res.C["resp_trailers_dropped"] += int64(o.respTrailersDropped)
 	nontrivial := len(s.Conns) > 1
@@ -2211,14 +2532,18 @@ func main() {
 	rep.Coverage["distinct_nontrivial"] = rep.Counter("nontrivial")
 	rep.Coverage["distinct_outcomes"] = len(agg.Keys["outcomes"])
 	rep.Coverage["exhaustive"] = rep.Incomplete == ""
-	rep.Coverage["rule"] = "every scenario of the families A (request body: 7 methods x 2 target forms x {no Expect, Expect} x body framings x sizes x write segmentations), B (request head: methods x target forms x 9 header sets x {1.1,1.0,1.0+keep-alive} x Connection: close x {no body, 1 byte}), C (response: {GET,HEAD,POST} x client Accept-Encoding {absent,gzip,identity} x protocol x every origin response shape: status x framing x size x header set x Connection: close, bodiless statuses, 1xx-then-final), X (12 request shapes x all response shapes), D (all sequences over the 6x5 reduced exchange alphabet, sequential and pipelined), G (gzip then a second exchange), E (large bodies), F (3 concurrent connections / a stalled reader on one proxy), Y (request trailers: 1 or 2 announced fields, judged), R (origin response in two bursts separated by 0/150/400 ms of silence), P (request 1 plus a prefix of request 2 in one write, cut at 7 points; response 1 must arrive before the rest is sent), T (SetTimeout(T), 4 requests separated by gaps < T/2 summing to > T; judged only if the measured gaps stayed below T/2) and, in the thorough tier, D2 (length 2 over the wide 8x8 alphabet), D3 (length 3 over the wide alphabet), D4 (length 4 over the reduced alphabet), all sequential and pipelined, S (origin response cut into several writes: head/body, one write per head line, byte by byte), I (2-3 client connections whose send/receive steps interleave in every scripted order), sizes around the 4096/8192/32768/65536 boundaries and the chunk-size lists [n], [1,n-1], [n-1,1], [1]*n, [4096...], [1,2,4,...], chunk extensions, trailers is executed once; scenarios are deduplicated after truncation at the first closing exchange. A scenario is non-trivial when it relays at least one non-empty body or more than one exchange."
-	rep.Coverage["bounds"] = fmt.Sprintf("tier %s: %d scenarios (families %v); sizes %s; sequences of length <= %d; <= 3 client connections; bodies <= %s", tier, total, fams,
-		map[string]string{"quick": "{0,1,4097} + 300001", "thorough": "{0,1,4095..4097,8191..8193,32767..32769,65535..65537} + 300001, 1 MiB+3, 4 MiB"}[tier], map[string]int{"quick": 2, "thorough": 4}[tier], map[string]string{"quick": "300001 B", "thorough": "4 MiB"}[tier])
+	rep.Coverage["rule"] = "every scenario of the families A (request body: 7 methods x 2 target forms x {no Expect, Expect} x body framings x sizes x write segmentations), B (request head: methods x target forms x 9 header sets x {1.1,1.0,1.0+keep-alive} x Connection: close x {no body, 1 byte}), C (response: {GET,HEAD,POST} x client Accept-Encoding {absent,gzip,identity} x protocol x every origin response shape: status x framing x size x header set x Connection: close, bodiless statuses, 1xx-then-final), X (12 request shapes x all response shapes), D (all sequences over the 6x5 reduced exchange alphabet, sequential and pipelined), G (gzip then a second exchange), E (large bodies), F (3 concurrent connections / a stalled reader on one proxy), Y (request trailers: 1 or 2 announced fields, judged), R (origin response in two bursts separated by 0/150/400 ms of silence), P (request 1 plus a prefix of request 2 in one write, cut at 7 points; response 1 must arrive before the rest is sent), T (SetTimeout(T), 4 requests separated by gaps < T/2 summing to > T; judged only if the measured gaps stayed below T/2), HB (request / response heads padded to exactly 1 MiB-4096, 1 MiB+4096, 3 MiB bytes - thorough also 1 MiB-1, 1 MiB, 1 MiB+1, 2, 6, 9 MiB - as 4 KiB lines of one name, 64 KiB lines of distinct names or a single field x request/response shapes x position: alone, first, second, pipelined), L (SetTimeout(3 s), dial installed through SetDial: every timeline of 2..3 - thorough 2..4 - exchanges with 0 or 1.2 s of origin silence before the head or inside the body and idle gaps of 0 or 0.7 s whose total exceeds the timeout, on one client connection or split over two consecutive ones, GET / POST / PUT; judged only if every measured gap and exchange stayed below T/2) and, in the thorough tier, D2 (length 2 over the wide 8x8 alphabet), D3 (length 3 over the wide alphabet), D4 (length 4 over the reduced alphabet), all sequential and pipelined, S (origin response cut into several writes: head/body, one write per head line, byte by byte), I (2-3 client connections whose send/receive steps interleave in every scripted order), sizes around the 4096/8192/32768/65536 boundaries and the chunk-size lists [n], [1,n-1], [n-1,1], [1]*n, [4096...], [1,2,4,...], chunk extensions, trailers is executed once; scenarios are deduplicated after truncation at the first closing exchange. A scenario is non-trivial when it relays at least one non-empty body or more than one exchange."
+	rep.Coverage["bounds"] = fmt.Sprintf("tier %s: %d scenarios (families %v); sizes %s; sequences of length <= %d; <= 3 client connections; bodies <= %s; header blocks <= %s; connection-age timelines: timeout 3000 ms, gaps {0,700} ms, origin silences {0,1200} ms", tier, total, fams,
+		map[string]string{"quick": "{0,1,4097} + 300001", "thorough": "{0,1,4095..4097,8191..8193,32767..32769,65535..65537} + 300001, 1 MiB+3, 4 MiB"}[tier], map[string]int{"quick": 2, "thorough": 4}[tier], map[string]string{"quick": "300001 B", "thorough": "4 MiB"}[tier], map[string]string{"quick": "3 MiB", "thorough": "9 MiB"}[tier])
 	rep.Assumptions = []string{
 		"in-memory connections model TCP (bounded buffers, EOF after buffered bytes, EPIPE on write to a closed peer); a deterministic subset of scenarios is re-run over loopback TCP and any difference in outcome is reported as a harness problem (coverage.mem_tcp_disagreements)",
 		"framing headers (Content-Length, Transfer-Encoding) and RFC 7230 6.1 hop-by-hop headers are not compared; bodies are compared after de-framing; header names are compared case-insensitively; headers added by the proxy/transport are allowed; announced request trailer fields must reach the origin with their values",
 		"a stalled exchange is recognised structurally (proxy and client both blocked in Read on the same connection with nothing in flight), confirmed over 3 polls; the hang deadline is 20 s",
 		"goroutine schedules inside net/http's Transport are not enumerated (free-running)",
+	}
+	if judged := rep.Counter("conn_age_runs_judged"); rep.Incomplete == "" && judged*2 < int64(fams["L_upstream_conn_age"]) {
+		rep.Incomplete = fmt.Sprintf("only %d of %d upstream-connection-age timelines ran within their time bounds (machine too slow): the family says nothing", judged, fams["L_upstream_conn_age"])
+		rep.Coverage["exhaustive"] = false
 	}
 	if rep.Incomplete != "" {
 		fmt.Fprintln(os.Stderr, "INCOMPLETE:", rep.Incomplete)
